@@ -302,6 +302,9 @@ def _run():
             tg = st_.targets[0] if isinstance(st_, ast.Assign) else st_.target
             if isinstance(tg, ast.Name) and isinstance(st_.value, (ast.Dict, ast.List, ast.Set)) and _read_only(im, tg.id, st_):
                 continue      # a constant table (a literal that is only ever looked up) remembers nothing
+            if isinstance(st_.value, ast.Call) and isinstance(st_.value.func, ast.Name) and st_.value.func.id in ("frozenset", "tuple") \
+                    and not st_.value.keywords and not any(isinstance(q, (ast.Call, ast.Lambda)) for a in st_.value.args for q in ast.walk(a)):
+                continue      # an immutable collection cannot remember a call either
             memo.append("global:" + ast.unparse(tg))
     for n in ast.walk(im):
         if isinstance(n, ast.FunctionDef):
